@@ -60,10 +60,5 @@ func ReLU(X tensor.Tensor) (tensor.Tensor, error) {
 		return nil, err
 	}
 
-	comparison, err := tensor.Gt(X, typedZero, tensor.AsSameType())
-	if err != nil {
-		return nil, err
-	}
-
-	return tensor.Mul(X, comparison)
+	return tensor.MaxBetween(X, typedZero)
 }
